@@ -194,6 +194,15 @@ def handleQuery (j : Json) : Except String Json := do
 def handle (j : Json) : Except String Json := do
   let op ← getStr j "op"
   match op with
+  | "session" => do
+    -- a sequence of queries against one database: the model is pure, one answer per query
+    let db ← j.getObjVal? "db"
+    let rx ← j.getObjVal? "rx"
+    let steps ← getArr j "steps"
+    let answers ← steps.mapM (fun st => do
+      let toks ← st.getObjVal? "toks"
+      handleQuery (Json.mkObj [("toks", toks), ("db", db), ("rx", rx)]))
+    pure (Json.mkObj [("steps", Json.arr answers.toArray)])
   | "lex" => do
     let text ← getCps j "text"
     match lexAll (splitLines (text ++ ['.'])) with
